@@ -7,6 +7,21 @@ ROOT = os.path.dirname(os.path.dirname(os.path.abspath(__file__)))
 
 # id -> (category, technique, level text, level note, design ref)
 CHECKS = {
+ "C01": ("exploration",
+         "bounded exhaustive enumeration of strings and token sequences over the full token alphabet through both parse entry points, with a parser progress monitor and process-level death/stall pinpointing",
+         "Every string of <= 5 (thorough 6) atoms over five critical alphabets, every sequence of <= 3 (thorough 4) tokens over the token alphabet derived from SyntaxKind at run time (92 lexer-producible kinds plus text-dependent and malformed variants; spaced and tight renderings), thorough also every 5-token sequence at parser level (6.6e9), and 46 scaling families up to nesting 256 / 64 KiB are pushed through SourceFile::parse and SourceFile::parse_check_lex under catch_unwind in worker processes. A panic, failed assertion, overflow (strict profile), a parser loop that stops consuming (hook), a dead or stalled worker, or work above a frozen constant per token is a violation. Exhaustive within the bounds, so every grammar loop meets every token kind as the offending token by construction.",
+         "Bounds: see evidence (lengths, nesting 256, 64 KiB). Strict build profile (debug assertions, overflow checks). Hook oq3_verif counts look-aheads/events. Four genuine defects found this way were repaired by fix: commits (known_findings.jsonl, fixed entries).",
+         "DESIGN.md section 7, C01"),
+ "C02": ("exploration",
+         "bounded exhaustive enumeration of inputs; structural invariant of the rowan tree checked on every node",
+         "On every input of the C01 text-level spaces (and the scaling families) both entry points' trees are walked completely: root kind and range, leaves spelling the input byte for byte, every node's children tiling its range without gap or overlap, empty nodes having empty ranges.",
+         "Inputs on which parsing does not return are C01's and are skipped (counted). rowan's range arithmetic is trusted.",
+         "DESIGN.md section 7, C02"),
+ "C12": ("exploration",
+         "bounded exhaustive enumeration of inputs; span validity and error-node/diagnostic correspondence on every one",
+         "On every input of the C01 text-level spaces (with non-ASCII lexemes) every diagnostic of both entry points must have start <= end <= len on character boundaries, and a tree containing an ERROR node or token must come with at least one diagnostic.",
+         "Syntax diagnostics only in this round; semantic diagnostics' ranges are added with the semantic checks.",
+         "DESIGN.md section 7, C12"),
  "C14": ("exploration",
          "bounded exhaustive enumeration of input strings over critical alphabets, invariant oracle on every one",
          "Every string of at most 5 (thorough: 6-7) symbols over five 14-symbol alphabets of lexically critical atoms is lexed by the real lexer and by LexedStr; on each the partition invariants (non-zero lengths, character boundaries, suffix offsets, lengths summing to the input, strictly increasing offsets, slicing never fails, two runs equal) are checked. Exhaustive within the bound, so every lexer shortcut reachable with <= 7 critical atoms is hit by construction rather than by luck.",
